@@ -56,6 +56,7 @@ Step ==
     [] E.name = "SetRescale"   -> SetRescale(E.v)
     [] E.name = "SetIntScale"  -> SetIntScale(E.s)
     [] E.name = "SetBounds"    -> SetBounds(E.arg, B(E.b.lo, E.b.hi, E.b.lc, E.b.hc), E.check)
+    [] E.name = "SetBounds2"   -> SetBounds2(B(E.bv.lo, E.bv.hi, E.bv.lc, E.bv.hc), B(E.bl.lo, E.bl.hi, E.bl.lc, E.bl.hc))
 
 TraceNext == l <= Len(Log) /\ Step /\ l' = l + 1
 
